@@ -171,7 +171,22 @@ def close(a, b, rel=1e-9, abs_=0.0):
     return abs(a - b) <= max(rel * max(abs(a), abs(b)), abs_)
 
 
+def _raised_in_harness(e):
+    tb = e.__traceback__
+    last = None
+    while tb is not None:
+        last = tb
+        tb = tb.tb_next
+    return last is not None and os.path.abspath(last.tb_frame.f_code.co_filename).startswith(os.path.join(VERIF, "harness"))
+
+
 def errname(e):
+    if isinstance(e, AttributeError) and str(getattr(e, "name", "") or "").startswith("_") and _raised_in_harness(e):
+        # the harness itself reached for a private member that is not there any more (a refactor renamed it): the tie
+        # to the code is broken at this point; it says nothing about what the code computes
+        return f"Error:TieBroken:private member {e.name} is gone"
+    if isinstance(e, ImportError):
+        return f"Error:TieBroken:{type(e).__name__} {getattr(e, 'name', '') or str(e)[:80]}"
     for k in ("IndexError", "ValueError", "RuntimeError", "NotImplementedError", "TypeError", "KeyError"):
         if type(e).__name__ == k:
             return k
@@ -342,6 +357,9 @@ def write_replay(prop, payload):
     return os.path.relpath(p, VERIF)
 
 
+TIE_BROKEN = {}
+
+
 def evaluate(mod, cases):
     """Run implementation + model + oracle on a list of cases.
     Returns list of dicts {case, impl, model, disagree:[idx], clause}."""
@@ -350,10 +368,14 @@ def evaluate(mod, cases):
     all_ops = []
     for c in cases:
         ia = mod.impl(c)
-        if any(isinstance(a, str) and a in ("Error:ImportError", "Error:ModuleNotFoundError") for a in ia):
-            # the harness could not even import an anchored function (renamed/moved by a refactor): that is a
-            # problem of the machinery, not evidence about the property
-            raise InfraError(f"{mod.PROP}: an anchored module/function could not be imported by the harness: {clean(c)!r}"[:600])
+        tb = [a for a in ia if isinstance(a, str) and (a.startswith("Error:TieBroken:") or a in ("Error:ImportError", "Error:ModuleNotFoundError"))]
+        if tb:
+            # the harness could not reach an anchored function / private member (renamed or moved by a refactor): for
+            # this case the correspondence cannot be established.  The remaining cases are still evaluated (they are
+            # the search for a failing input); the broken tie itself is reported at the end (DESIGN §3: a broken
+            # correspondence is reported, with no-failing-input-found when the search finds nothing).
+            TIE_BROKEN.setdefault(tb[0], []).append(clean(c))
+            continue
         ops = mod.ops(c)
         if len(ia) == 1 and len(ops) > 1 and isinstance(ia[0], str) and (
             ia[0].startswith("Error:") or ia[0] in ("IndexError", "ValueError", "RuntimeError", "NotImplementedError", "TypeError", "KeyError")
@@ -573,6 +595,18 @@ def _main(mod, prop, args, seed, t0):
                 continue
             seen_ops.add(key)
             report(r, "correspondence")
+    if TIE_BROKEN:
+        payload = {
+            "property": prop,
+            "kind": "correspondence-unreachable",
+            "no_longer_checks": [f"{what} ({len(cs)} cases could not be tied to the code)" for what, cs in TIE_BROKEN.items()]
+            + [f"theorems about lean/Verif/Model/{prop}.lean no longer transfer to the code at these points: " + ", ".join(mod.THEOREMS[:6])],
+            "example_cases": [cs[0] for cs in list(TIE_BROKEN.values())[:3]],
+            "searched": f"{len(results)} remaining cases on the implementation, oracle failures: {len(oracle_bad)}",
+        }
+        path = write_replay(prop, payload)
+        violations += 1
+        reported.append(f"VIOLATION property={prop} replay={path} no-failing-input-found")
     if broken:
         payload = {
             "property": prop,
